@@ -57,11 +57,10 @@ Section Origin.
     destruct (add_exception s q e) as [s1 o1] eqn:E. apply orig_add_event in E; [|exact Ha].
     destruct (run_stoppers s1 rest e) as [s2 o2] eqn:R. apply IH in R. invpairs. apply Forall_app; split; assumption.
   Qed.
-  Lemma orig_tm_dispatch_error : forall s k r s' o, A (PException (wrap_error k)) -> tm_dispatch_error s k r = Ok (s', o) -> Forall orig o.
+  Lemma orig_tm_dispatch_error : forall s k r s' o, A (PException (wrap_error k)) -> tm_dispatch_error s k r = (s', o) -> Forall orig o.
   Proof.
-    intros s k r s' o Ha H. unfold tm_dispatch_error in H. destruct (outgoing s); [|inversion H; constructor].
-    destruct (collect_stoppers r l); cbn in H; [|discriminate].
-    destruct (run_stoppers s a (wrap_error k)) eqn:R. apply orig_run_stoppers in R; [|exact Ha]. inversion H. subst. exact R.
+    intros s k r s' o Ha H. unfold tm_dispatch_error in H. destruct (outgoing s); [|invpairs; constructor].
+    eapply orig_run_stoppers; eauto.
   Qed.
   Lemma orig_shutdown_loop : A (PException LibraryShutdown) -> forall fuel s s' o, tm_shutdown_loop fuel s = (s', o) -> Forall orig o.
   Proof.
@@ -98,8 +97,7 @@ Section Origin.
     intros s r mid s' o Ha H. unfold _retransmit in H. destruct (exchanges s); [|invpairs; constructor].
     destruct (alookup rm_eqb (r, mid) l); [|invpairs; repeat constructor].
     destruct (ex_counter e <? 4); [invpairs; repeat constructor|].
-    destruct (tm_dispatch_error _ _ r) as [[s1 o1]|x] eqn:T; [|invpairs; repeat constructor].
-    eapply orig_tm_dispatch_error in T; [|exact Ha]. invpairs. exact T.
+    eapply orig_tm_dispatch_error in H; [exact H|exact Ha].
   Qed.
 End Origin.
 
@@ -126,7 +124,7 @@ Proof.
     eapply (orig_retransmit (pev_allowed Fire)); [|exact H]. exact eq_refl.
   - repeat dmatch; invpairs; constructor.
   - unfold mm_dispatch_error in H. destruct (exchanges s); [|invpairs; constructor].
-    destruct (tm_dispatch_error s k r) as [[s1 o1]|x] eqn:T; [|invpairs; repeat constructor].
+    destruct (tm_dispatch_error s k r) as [s1 o1] eqn:T.
     eapply (orig_tm_dispatch_error (pev_allowed (Err r k))) in T; [|exact eq_refl]. invpairs. exact T.
   - unfold cancel in H. repeat dmatch; invpairs; repeat constructor.
   - invpairs. constructor.
